@@ -607,7 +607,8 @@ func scratch() string {
 }
 
 func newDir(prefix string) string {
-	d, err := os.MkdirTemp(scratch(), prefix)
+	// every database directory has glob and shell metacharacters and a space in its name
+	d, err := os.MkdirTemp(scratch(), prefix+"[0] ?x-")
 	if err != nil {
 		panic(err)
 	}
